@@ -2,7 +2,7 @@
    before the repair, and spec-level facts (order independence of the verdict clause, when a call succeeds, tie of veq to C09's
    equals, the global mock alone behaves as one mock). *)
 From Coq Require Import ZArith NArith Bool List Lia Permutation.
-From CppUVerif Require Import lib.CInt lib.Str C08_Model C08_Proofs C08_Proofs2 C08_Scopes C08_Count.
+From CppUVerif Require Import lib.CInt lib.Str C08_Model C08_Proofs C08_Proofs2 C08_Scopes C08_Count C08_Outs C08_Post.
 From CppUVerif Require C09_Model C09_Proofs.
 Import ListNotations.
 Local Open Scope N_scope.
@@ -182,23 +182,88 @@ Qed.
 Lemma forallb_true_iff {A} (p : A -> bool) l : forallb p l = true <-> forall x, In x l -> p x = true.
 Proof. apply forallb_forall. Qed.
 
+(* M's verdict over the scopes is the multiset / strict-sequence verdict of every scope, once each scope's is *)
+Lemma verdictw_is_M_partial k :
+  (forall s, In s (0 :: scopes_of k) -> verdict_agrees (scope_canon k s)) ->
+  verdictw_ok k = match mr_fail (expectedw k) with None => true | Some _ => false end.
+Proof.
+  intro HV. unfold verdictw_ok. destruct (mr_fail (expectedw k)) eqn:F.
+  - destruct (forallb (fun s => verdict_ok (scope_canon k s)) (0 :: scopes_of k)) eqn:X; [|reflexivity]. exfalso.
+    assert (Y : mr_fail (expectedw k) = None); [|congruence].
+    apply verdict_scopes. intros s Hs. rewrite forallb_forall in X. specialize (X s Hs). rewrite (HV s Hs) in X.
+    unfold expected in X. cbn [fst] in X. destruct (mr_fail (expected_res (scope_canon k s))); [discriminate X|reflexivity].
+  - apply forallb_forall. intros s Hs. rewrite (HV s Hs). unfold expected. cbn [fst].
+    rewrite (proj1 (verdict_scopes k) F s Hs). reflexivity.
+Qed.
+
+(* an operation other than the plugin's check delivers nothing to the recording reporter *)
+Lemma step_post_nil m o m' r : o <> OPost -> step true m o = inl (m', r) -> r_post r = [].
+Proof.
+  intro NP. destruct o as [n f ps outs obj ret ign|f its want| | | | | | | |]; cbn [step]; try (intro H; inversion H; reflexivity).
+  - intro H. apply (actual_call_facts _ _ _ _ _ _ H).
+  - destruct (check_expectations m); [intro H; inversion H; reflexivity|discriminate].
+  - destruct (calls_left m) as [[m1 b]|]; [intro H; inversion H; reflexivity|discriminate].
+  - congruence.
+Qed.
+Lemma stepw_post_nil w s o w' r : o <> OPost -> stepw true w (s, o) = inl (w', r) -> r_post r = [].
+Proof.
+  intro NP. unfold stepw. destruct (s =? 0).
+  - assert (GEN : match step true (w_g w) o with inr fl => inr fl | inl (g, r0) => inl ({| w_g := g; w_kids := w_kids w |}, r0) end = inl (w', r) -> r_post r = []).
+    { destruct (step true (w_g w) o) as [[g r0]|] eqn:ST; [|discriminate]. intro H. inversion H; subst. apply (step_post_nil _ _ _ _ NP ST). }
+    destruct o as [n f ps outs obj ret ign|f its want| | | | | | | |]; try exact GEN; try (intro H; inversion H; reflexivity).
+    + destruct (check_world w); [intro H; inversion H; reflexivity|discriminate].
+    + destruct (finish_all w); [intro H; inversion H; reflexivity|discriminate].
+    + congruence.
+  - destruct (step true (kid s w) o) as [[m r0]|] eqn:ST; [|discriminate]. intro H. inversion H; subst. apply (step_post_nil _ _ _ _ NP ST).
+Qed.
+Lemma runw_no_post : forall ops w i a, (forall so, In so ops -> snd so <> OPost) -> a_post a = [] -> o_post (runw_from true w i ops a) = [].
+Proof.
+  induction ops as [|[s o] r IH]; intros w i a NP HA; cbn [runw_from]; [cbn; rewrite HA; reflexivity|].
+  destruct (stepw true w (s, o)) as [[w' rv]|fl] eqn:ST; [|cbn; rewrite HA; reflexivity].
+  apply IH; [intros so Hso; apply NP; right; exact Hso|]. cbn. rewrite HA, (stepw_post_nil _ _ _ _ _ (NP (s, o) (or_introl eq_refl)) ST). reflexivity.
+Qed.
+Lemma canonw_no_post k : forall so, In so (canonw_ops k) -> snd so <> OPost.
+Proof.
+  intros so H. unfold canonw_ops in H. rewrite !in_app_iff in H. destruct H as [H|[H|[H|[H|[]]]]].
+  - apply in_map_iff in H. destruct H as [c [<- _]]. unfold cfg_op. cbn. destruct (snd c); discriminate.
+  - apply in_map_iff in H. destruct H as [c [<- _]]. discriminate.
+  - apply in_map_iff in H. destruct H as [c [<- _]]. discriminate.
+  - subst so. discriminate.
+Qed.
+Lemma kinds_list_eqb2 fs ds : kinds fs = map Some ds -> list_eqb2 kind_is fs ds = true.
+Proof.
+  revert ds. induction fs as [|fl r IH]; destruct ds as [|d ds]; cbn; intro H; try discriminate H; [reflexivity|].
+  inversion H as [[H1 H2]]. unfold kind_is. rewrite H1, dkind_eqb_refl. apply IH. exact H2.
+Qed.
+Lemma kinds_nil fs : kinds fs = [] -> fs = []. Proof. destruct fs; [reflexivity|discriminate]. Qed.
+
+(* the spec over the scopes on the model's own observation: the coherence clause for every scenario; on judged scenarios that end
+   with mock().checkExpectations() the verdict, first-deviation, value and output clauses (W_refines_M); on judged scenarios that
+   end with the plugin's check the same with the list of failures that check delivers (W_post_refines_M) *)
 Lemma runw_meets_specw_partial ops :
-  (forall k s, parsew ops = Some k -> judgedw k = true -> In s (0 :: scopes_of k) -> verdict_agrees (scope_canon k s)) ->
+  (forall k s, judgedw k = true -> In s (0 :: scopes_of k) -> verdict_agrees (scope_canon k s)) ->
   specw ops (runw ops) = true.
 Proof.
-  intro HV. unfold specw. destruct (parsew ops) as [k|] eqn:Hp; [|reflexivity].
-  destruct (judgedw k) eqn:Hj; [|reflexivity]. cbn [negb].
-  destruct (W_refines_M ops k Hp Hj) as [LR LO]. destruct (proj_lift_fail _ _ _ LR) as [A [B C]].
-  rewrite A, B, C, LO.
-  assert (V : verdictw_ok k = match mr_fail (expectedw k) with None => true | Some _ => false end).
-  { unfold verdictw_ok. destruct (mr_fail (expectedw k)) eqn:F.
-    - destruct (forallb (fun s => verdict_ok (scope_canon k s)) (0 :: scopes_of k)) eqn:X; [|reflexivity]. exfalso.
-      assert (Y : mr_fail (expectedw k) = None); [|congruence].
-      apply verdict_scopes. intros s Hs. rewrite forallb_forall in X. specialize (X s Hs). rewrite (HV k s eq_refl Hj Hs) in X.
-      unfold expected in X. cbn [fst] in X. destruct (mr_fail (expected_res (scope_canon k s))); [discriminate X|reflexivity].
-    - apply forallb_forall. intros s Hs. rewrite (HV k s eq_refl Hj Hs). unfold expected. cbn [fst].
-      rewrite (proj1 (verdict_scopes k) F s Hs). reflexivity. }
-  rewrite V, eqb_reflx, andb_true_r. cbn [andb]. apply list_eqb_refl. apply opt_pv_eqb_refl.
+  intro HV. unfold specw. rewrite coherent_run. cbn [andb]. destruct (parsew ops) as [k|] eqn:Hp.
+  - destruct (judgedw k) eqn:Hj; [|reflexivity]. cbn [negb].
+    destruct (W_refines_M ops k Hp Hj) as [LR LO]. destruct (proj_lift_fail _ _ _ LR) as [A [B C]].
+    rewrite A, B, C, LO, (verdictw_is_M_partial k (fun s => HV k s Hj)).
+    assert (NP : o_post (runw ops) = []).
+    { unfold runw, runw_gen. apply runw_no_post; [|reflexivity]. rewrite (parsew_inv _ _ Hp). apply canonw_no_post. }
+    rewrite NP, eqb_reflx, andb_true_r. cbn [andb is_nil]. rewrite andb_true_r. apply list_eqb_refl. apply opt_pv_eqb_refl.
+  - destruct (post_to_check ops) as [ops'|] eqn:Hq; [|reflexivity]. destruct (parsew ops') as [k|] eqn:Hp'; [|reflexivity].
+    destruct (judgedw k) eqn:Hj; [|reflexivity]. cbn [negb]. unfold specw_post.
+    destruct (W_post_refines_M ops ops' k Hq Hp' Hj) as [RT [OU M]]. cbn zeta in RT, OU, M.
+    rewrite RT, OU, (verdictw_is_M_partial k (fun s => HV k s Hj)), (list_eqb_refl opt_pv_eqb _ opt_pv_eqb_refl), !andb_true_r.
+    destruct (mw_end k (sts0 k) (kw_calls k)) as [sts|].
+    + destruct M as [F [KP MF]]. rewrite MF. unfold passed_post, passed_obs. rewrite F, (kinds_list_eqb2 _ _ KP). cbn [andb]. rewrite andb_true_r.
+      destruct (m_final (map snd sts)) as [d|] eqn:MFi.
+      * destruct (o_post (runw ops)) as [|x xs] eqn:OP; [|reflexivity]. exfalso. cbn in KP.
+        assert (X : m_post (map snd sts) = []) by (destruct (m_post (map snd sts)); [reflexivity|discriminate KP]).
+        apply m_post_nil in X. congruence.
+      * apply m_post_nil in MFi. rewrite MFi in KP. rewrite (kinds_nil _ KP). reflexivity.
+    + destruct M as [PL [PN MF]]. destruct (proj_lift_fail _ _ _ PL) as [A [B C]]. rewrite A, PN. unfold passed_post. rewrite C. cbn [is_nil andb].
+      destruct (mr_fail (expectedw k)); [reflexivity|]. exfalso. apply MF. reflexivity.
 Qed.
 
 (* the verdict over the scopes: the model passes a judged scenario iff, in M, every scope passes its own scenario *)
@@ -216,7 +281,7 @@ Proof. unfold judgedw. rewrite forallb_forall. intros H Hs. apply H. exact Hs. Q
 Theorem run_meets_spec ops : spec ops (run ops) = true.
 Proof. apply run_meets_spec_partial. intros k _ Hj. apply verdict_counting. exact Hj. Qed.
 Theorem runw_meets_specw ops : specw ops (runw ops) = true.
-Proof. apply runw_meets_specw_partial. intros k s _ Hj Hs. apply verdict_counting. apply judgedw_scope; assumption. Qed.
+Proof. apply runw_meets_specw_partial. intros k s Hj Hs. apply verdict_counting. apply judgedw_scope; assumption. Qed.
 (* the verdict clause itself: the model passes iff the multisets (strict: the sequences) agree -- in every scope *)
 Theorem verdict_exact ops k : parse ops = Some k -> judged k = true -> (o_fail (run ops) = None <-> verdict_ok k = true).
 Proof.
@@ -237,11 +302,14 @@ Qed.
 Lemma stepw_global w o : w_kids w = [] ->
   stepw true w (0, o) = match step true (w_g w) o with inr fl => inr fl | inl (g, r) => inl ({| w_g := g; w_kids := [] |}, r) end.
 Proof.
-  intro K. destruct w as [g kids]. cbn in K. subst kids. destruct o as [n f ps outs obj ret ign|f its want| | | | | | |]; cbn; try reflexivity.
+  intro K. destruct w as [g kids]. cbn in K. subst kids. destruct o as [n f ps outs obj ret ign|f its want| | | | | | | |]; cbn; try reflexivity.
   - unfold check_world, check_expectations, finish_all, last_ok_all, left_all, ooo_all, all_exps. cbn.
     destruct (finish_last g) as [g'|]; [|reflexivity]. cbn. rewrite !orb_false_r, andb_true_r, app_nil_r.
     destruct (last_ok g' && unfulfilled (m_exps g')); [reflexivity|]. destruct (existsb e_ooo (m_exps g')); reflexivity.
   - unfold calls_left, finish_all, left_all. cbn. destruct (finish_last g) as [g'|]; [|reflexivity]. cbn. rewrite orb_false_r. reflexivity.
+  - unfold post_world, post_check, finish_all_nl, last_ok_all, left_all, ooo_all, all_exps. cbn.
+    destruct (finish_last_nl g) as [g' f1]. cbn. rewrite !orb_false_r, andb_true_r, !app_nil_r.
+    destruct (last_ok g' && unfulfilled (m_exps g')); [reflexivity|]. destruct (existsb e_ooo (m_exps g')); reflexivity.
 Qed.
 Lemma runw_global_from : forall ops g i a, runw_from true {| w_g := g; w_kids := [] |} i (map (pair 0) ops) a = run_from true g i ops a.
 Proof.
